@@ -460,13 +460,66 @@ Lemma enum_order_indep_lemma bases q cname fuel d d' p p' st cs : operm d d' -> 
   run_seq bases q (option_map (tmap cname) d') (option_map (tmap cname) p') fuel st cs.
 Proof. intros Hd Hp. apply run_seq_ext; apply operm_oeq; assumption. Qed.
 
-(* ---- get_source: a user template shadows the built-in one of the same name ---------------------------------- *)
-Lemma get_source_user_first (fs : list path) pkg name : has_file fs name = true -> get_source (Some fs) pkg name = Some SrcFs.
+(* ---- get_source over the ordered roots ------------------------------------------------------------------------------ *)
+Lemma has_file_In l n : has_file l n = true <-> In n l.
+Proof.
+  unfold has_file. rewrite existsb_exists. split.
+  - intros [x [Hx E]]. destruct (str_eqb_spec x n) as [->|]; [exact Hx | discriminate E].
+  - intros H. exists n. split; [exact H | apply str_eqb_refl].
+Qed.
+
+(* first_root returns the FIRST search path that holds the name *)
+Lemma first_root_spec name : forall rs k i, first_root rs name k = Some i ->
+  exists j r, i = (k + j)%nat /\ nth_error rs j = Some r /\ has_file r name = true /\
+              forall j' r', (j' < j)%nat -> nth_error rs j' = Some r' -> has_file r' name = false.
+Proof.
+  induction rs as [|r rs IH]; intros k i H; cbn [first_root] in H; [discriminate H|].
+  destruct (has_file r name) eqn:E.
+  - inversion H; subst. exists 0%nat, r. repeat split; [lia | exact E | intros j' r' Hlt; lia].
+  - destruct (IH (S k) i H) as [j [r0 [Ei [Hn [Hf Hmin]]]]]. exists (S j), r0. repeat split; [lia | exact Hn | exact Hf |].
+    intros [|j'] r' Hlt Hn'; cbn [nth_error] in Hn'; [inversion Hn'; subst; exact E | apply (Hmin j' r'); [lia | exact Hn']].
+Qed.
+
+Lemma first_root_none name : forall rs k, first_root rs name k = None <-> forall r, In r rs -> has_file r name = false.
+Proof.
+  induction rs as [|r rs IH]; intros k; cbn [first_root]; [split; [intros _ r [] | reflexivity]|].
+  destruct (has_file r name) eqn:E.
+  - split; [discriminate|]. intros H. rewrite (H r (or_introl eq_refl)) in E. discriminate E.
+  - rewrite IH. split; [intros H r' [<-|Hr]; [exact E | apply H, Hr] | intros H r' Hr; apply H; right; exact Hr].
+Qed.
+
+Lemma get_source_user_first rs pkg name i : first_root rs name 0 = Some i -> get_source (Some rs) pkg name = Some (OUserDir i).
 Proof. intros H. unfold get_source. rewrite H. reflexivity. Qed.
 
-Lemma get_source_fallback fs pkg name : has_file fs name = false -> has_file pkg name = true ->
-  get_source (Some fs) (Some pkg) name = Some SrcPkg.
-Proof. intros H1 H2. unfold get_source. rewrite H1, H2. reflexivity. Qed.
+Lemma get_source_fallback rs pkg name : first_root rs name 0 = None -> has_file pkg name = true ->
+  get_source (Some rs) (Some pkg) name = Some OPkg.
+Proof. intros H1 H2. unfold get_source, pkg_source. rewrite H1, H2. reflexivity. Qed.
+
+(* ---- the other reading of "nearest class for which a template exists": in ANY of the two sets ---------------------------- *)
+Lemma nearest_some_in T : forall l p, nearest T l = Some p -> exists k, In k l /\ T k = Some p.
+Proof.
+  induction l as [|c l IH]; intros p H; cbn [nearest] in H; [discriminate H|].
+  destruct (T c) as [q|] eqn:E.
+  - inversion H; subst. exists c. split; [left; reflexivity | exact E].
+  - destruct (IH p H) as [k [Hk Tk]]. exists k. split; [right; exact Hk | exact Tk].
+Qed.
+
+Lemma shadow_free_nearest Tf Tp : forall l, shadow_freeb Tf Tp l = true ->
+  nearest_any Tf Tp l = match nearest Tf l with Some p => Some p | None => nearest Tp l end.
+Proof.
+  induction l as [|c l IH]; intros H; cbn [shadow_freeb nearest_any nearest] in *; [reflexivity|].
+  destruct (Tf c) as [p|]; [reflexivity|]. destruct (Tp c) as [p|].
+  - destruct (nearest Tf l); [discriminate H | reflexivity].
+  - apply IH. exact H.
+Qed.
+
+(* user template for the root class 0, built-in templates for 0 and 1: class 1 gets the USER template of its ancestor although a
+   built-in template named after class 1 itself exists *)
+Definition w_user (c : cls) : option path := if c =? 0 then Some [65] else None.
+Lemma user_general_shadows_specific_builtin :
+  snd (type_to_template w_bases false (Some w_user) (Some w_pkg) 3 st0 1) <> nearest_any w_user w_pkg (chain_n w_bases (w_rank 1) 1)
+  /\ shadow_freeb w_user w_pkg (chain_n w_bases (w_rank 1) 1) = false.
+Proof. split; vm_compute; [discriminate | reflexivity]. Qed.
 
 (* ---- instance tests ------------------------------------------------------------------------------------------- *)
 Lemma test_agrees_conformant bases fuel attr root v :
